@@ -36,7 +36,7 @@ ASSUMPTIONS = ["a file counts as completed when its numrec-th record has been wr
                "a trailing record exactly at the restarted run's stop time is not judged"]
 TIERS = {"quick": dict(runs=320, budget_s=60, shrink=60, reps_per_tag=1),
          "thorough": dict(runs=15000, budget_s=1200, shrink=120, reps_per_tag=2)}
-REQUIRED_PROBES = ["restart", "restart_from_older_file", "chain2", "chain3", "stop_off_grid", "pending_release_at_restart", "death_before_restart",
+REQUIRED_PROBES = ["restart", "restart_from_older_file", "newest_pid_dead_within_file", "chain2", "chain3", "stop_off_grid", "pending_release_at_restart", "death_before_restart",
                    "crash_in_partial_file", "particle_variables", "rk"]
 
 PROFILE = gen.profile(
@@ -53,6 +53,17 @@ def generate(seed: int, tier: str, idx: int) -> dict:
     s = stream(seed, "c08")
     sc = gen.gen_scenario(seed, PROFILE)
     gen.make_restartable(sc)
+    # the youngest particles die soon after their release: before the next record (the counter is then
+    # lost with them, the listed finding) or after one record but before the file is complete
+    if s.chance(0.6) and not sc["release"].get("continuous"):
+        rows = sorted(sc["release"]["rows"], key=lambda r: r["step"])
+        per = sc["output"]["period"]
+        for r in rows[-2:]:
+            if 0 <= r["step"] < sc["time"]["nsteps"] - 1 and s.chance(0.7):
+                k = min(sc["time"]["nsteps"] - 1, r["step"] + s.randint(0, 2 * per))
+                sc["ibm"].setdefault("kills", {}).setdefault(str(k), [])
+                if r["tag"] not in sc["ibm"]["kills"][str(k)]:
+                    sc["ibm"]["kills"][str(k)].append(r["tag"])
     plan = {"points": [], "chain": []}
     for _ in range(6):
         plan["points"].append({"crash_frac": round(s.random(), 3), "late": s.chance(0.3),
@@ -259,6 +270,9 @@ def self_restart(res: Result, sc, U, Urec_by_time, writesU, dU, k: int, s: int, 
     if snap_at_restart["npid"] > pidmax_in_file:
         site = "pid_counter_lost:newest pids absent from the restart file"
         res.probes["npid_gt_maxpid_in_file"] += 1
+    if pidmax_in_file and snap_at_restart["npid"] == pidmax_in_file and \
+            (pidmax_in_file - 1) not in set(np.asarray(b.record(b.nrec - 1)["pid"]).tolist()):
+        res.probes["newest_pid_dead_within_file"] += 1      # recorded in the file, gone by its last record
     if (~snap_at_restart["vars"]["alive"]).any() or snap_at_restart["npid"] > snap_at_restart["n"]:
         res.probes["death_before_restart"] += 1
     from ladsim import refmodel
